@@ -430,10 +430,15 @@ func (c *throttlingTrafficShapingController) PerformChecking(arg interface{}, ba
 		expectedTime := lastPassTime + intervalCostTime
 
 		if expectedTime <= currentTimeInMs || expectedTime-currentTimeInMs < c.maxQueueingTimeMs {
-			if atomic.CompareAndSwapInt64(lastPassTimePtr, lastPassTime, currentTimeInMs) {
-				awaitTime := expectedTime - currentTimeInMs
-				if awaitTime > 0 {
-					atomic.StoreInt64(lastPassTimePtr, expectedTime)
+			// The request's own pass time goes into the cell in ONE step. (Storing the current time first
+			// and the pass time afterwards let a concurrent request compute its pass time from the
+			// interim value: both were scheduled at the same instant.)
+			passTime := currentTimeInMs
+			if expectedTime > currentTimeInMs {
+				passTime = expectedTime
+			}
+			if atomic.CompareAndSwapInt64(lastPassTimePtr, lastPassTime, passTime) {
+				if awaitTime := passTime - currentTimeInMs; awaitTime > 0 {
 					return base.NewTokenResultShouldWait(time.Duration(awaitTime) * time.Millisecond)
 				}
 				return nil
